@@ -232,6 +232,26 @@ def determinism(ck):
             print(f"NONDETERMINISM (engine B): workload {x['index']} miri seed {x['mseed']}: {x['class']}/{x['order']} vs {y['class']}/{y['order']}")
             return 2
     print(f"engine B: {len(pairs)} (workload, Miri seed) pairs executed twice: identical class and completion order")
+    # engine C: each workload (both properties) executed twice in separate processes: same class,
+    # same number of schedules, same number of distinct completion orders, same compared count
+    ok, _, reason = ck.engine_c_build()
+    if not ok:
+        print("engine C does not build: " + reason)
+        return 2
+    n = 0
+    for prop in ("C17", "C18"):
+        for seed in (1, 99, 20261004):
+            with cf.ThreadPoolExecutor(max_workers=16) as ex:
+                a = list(ex.map(lambda i: ck.shuttle_exec(prop, seed, i, 400), range(24)))
+                b = list(ex.map(lambda i: ck.shuttle_exec(prop, seed, i, 400), range(24)))
+            for x, y in zip(a, b):
+                n += 1
+                kx = (x["class"], x["iterations"], x["compared"], x["orders"], x["workload"])
+                ky = (y["class"], y["iterations"], y["compared"], y["orders"], y["workload"])
+                if kx != ky:
+                    print(f"NONDETERMINISM (engine C): {prop} seed {seed} workload {x['index']}: {kx} vs {ky}")
+                    return 2
+    print(f"engine C: {n} (property, seed, workload) triples x 400 schedules executed twice: identical class, schedule count, compared responses and distinct completion orders")
     return 0
 
 
